@@ -341,6 +341,9 @@ func (cs *Contracts) LoadFile(path string, pkgPath string, external bool) error 
 				// ghost name type = init
 				fs := strings.SplitN(rest, "=", 2)
 				hd := strings.Fields(fs[0])
+				if len(hd) > 2 { // a type written with spaces (chan<- *T)
+					hd = []string{hd[0], strings.Join(hd[1:], " ")}
+				}
 				if len(fs) != 2 || len(hd) != 2 {
 					return errf("ghost needs 'name type = init'")
 				}
